@@ -250,6 +250,86 @@ func runC18(r *Run) {
 	checkSum(r, sm, T, sumFn)
 	sm.Done()
 
+	// ---- Reset really resets, and Write feeds everything
+	rt := r.Rule("C18.reset", "every path of Reset restores the inner hash to the keyed initial state (UnmarshalBinary of the marshaled ipad state, or Reset followed by Write(ipad)) before it returns; Write hands its whole argument to the inner hash and nothing else", 2)
+	{
+		innerF := FieldVar(T, "inner")
+		rep := map[*ssa.Return]bool{}
+		n := 0
+		q := &PathQuery{P: p, Fn: resetFn}
+		q.Step = func(in ssa.Instruction, deferred bool, st uint64, c *PathCtx) (uint64, bool) {
+			call, ok := in.(*ssa.Call)
+			if !ok {
+				return st, false
+			}
+			if call.Call.IsInvoke() {
+				recvV := call.Call.Value
+				if ta, isTA := recvV.(*ssa.TypeAssert); isTA {
+					recvV = ta.X
+				} else if e, isE := recvV.(*ssa.Extract); isE {
+					if ta, isTA := e.Tuple.(*ssa.TypeAssert); isTA {
+						recvV = ta.X
+					}
+				}
+				if _, f := loadedField(recvV); f == innerF {
+					switch call.Call.Method.Name() {
+					case "Reset", "UnmarshalBinary":
+						return st | 1, false
+					}
+				}
+			}
+			// a restore helper that is handed the inner hash
+			if sc := call.Call.StaticCallee(); sc != nil && p.isLibFn(sc) {
+				for _, a := range call.Call.Args {
+					if _, f := loadedField(a); f == innerF {
+						return st | 1, false
+					}
+				}
+			}
+			return st, false
+		}
+		q.AtReturn = func(ret *ssa.Return, st uint64, c *PathCtx) {
+			n++
+			if st&1 == 0 && !rep[ret] {
+				rep[ret] = true
+				rt.ViolationPath(resetFn, instrPos(ret), "return without restoring the inner hash", "Reset returns on this path without re-initialising the inner hash: the next MAC is computed over the previous message followed by the next", c.Witness(resetFn, ret))
+			}
+		}
+		q.Run()
+		rt.Instance("Reset", true, map[string]int{"return_paths": n})
+		// Write = inner.Write(p)
+		if wf := p.MethodOf(T, "Write"); wf != nil && len(wf.Params) == 2 {
+			r.Analysed(wf)
+			okW := false
+			nCalls := 0
+			eachInstr(wf, func(b *ssa.BasicBlock, i int, in ssa.Instruction) {
+				if c, ok := in.(*ssa.Call); ok {
+					nCalls++
+					if c.Call.IsInvoke() && c.Call.Method.Name() == "Write" {
+						if _, f := loadedField(c.Call.Value); f == innerF && len(c.Call.Args) == 1 && c.Call.Args[0] == ssa.Value(wf.Params[1]) {
+							okW = true
+						}
+					}
+				}
+			})
+			stores := 0
+			eachInstr(wf, func(b *ssa.BasicBlock, i int, in ssa.Instruction) {
+				if s, ok := in.(*ssa.Store); ok {
+					if fa, isFA := s.Addr.(*ssa.FieldAddr); isFA && fa.X == ssa.Value(wf.Params[0]) {
+						stores++
+					}
+				}
+			})
+			rt.Instance("Write", true, map[string]int{"calls": nCalls, "state_stores": stores})
+			if !okW || nCalls != 1 || stores != 0 {
+				rt.Violation(wf, wf.Pos(), "Write", "Write must be exactly inner.Write(p): extra state kept by Write (flags, counters) makes Sum/Reset depend on how the message was chunked")
+			}
+		} else {
+			rt.Fail("(*hmac).Write", "not found")
+		}
+	}
+	rt.Done()
+
 	// ---- marshaled typestate
 	ms := r.Rule("C18.marshaled", "marshaled = true only after both assertions to the marshalable interface and both MarshalBinary calls succeeded; the marshaled pads are used only under the flag; inner is restored from ipad (and stores ipad), outer from opad", 5)
 	checkMarshaled(r, ms, T, sumFn, resetFn)
